@@ -26,6 +26,7 @@ EXPLANATION = (
     "keyed by inputs of the wrapper that carries them (nothing else of an inner graph can make an outer input count as provided); (R7) bypass "
     "detection marks a node as bypassed only when a *non-empty* set of its outputs is provided; (R8) reader/writer agreement between the validator "
     "and the reported specification about bound values (today they disagree for bound output names: open known finding F18). R4 also requires the existential over all consumers in _any_node_has_default; R6 that the graph's own bindings are carried into the resolved table in full; (R9) a run-time recomputation of the specification is fed the same raw graph state (nodes, nx graph, the graph's own bindings, entry points) as the cached Graph.inputs. (R10) the validator groups supplied entry points by the same decomposition (strongly connected components of the data-only graph) the specification lists them by."
+    " R9 also requires that every computation of the active scope receives entry points and selection, and that an explicit run-time selection is never normalised to 'no narrowing'."
 )
 NOT_DECIDED = "Exactness (sufficiency and necessity) of the reported specification for every configuration — a statement about the computed sets; bypass and cycle-entry matching semantics."
 
